@@ -245,7 +245,8 @@ char *igris_f32toa(float32_t f, char *buf, int8_t precision)
     char *p = ptr;
     char *p1;
     char c;
-    int32_t intPart;
+    uint64_t intPart;
+    int intZeros = 0; // decimal zeros to append to the integer part
 
     if (isinf(f))
     {
@@ -293,9 +294,25 @@ char *igris_f32toa(float32_t f, char *buf, int8_t precision)
     if (precision)
         f += (float32_t)rounders[precision];
 
-    // integer part...
-    intPart = (int32_t)f;
-    f -= intPart;
+    // integer part... (every float above 2^24 is an integer, so the 64 bit
+    // conversion is exact; beyond 2^64 the value is brought into range by
+    // dividing by ten and the dropped digits are printed as zeros)
+    if (f >= 18446744073709551616.0f)
+    {
+        float64_t scaled = f;
+        while (scaled >= 18446744073709551616.0)
+        {
+            scaled /= 10.0;
+            ++intZeros;
+        }
+        intPart = (uint64_t)scaled;
+        f = 0;
+    }
+    else
+    {
+        intPart = (uint64_t)f;
+        f -= (float32_t)intPart;
+    }
 
     if (!intPart)
         *ptr++ = '0';
@@ -324,6 +341,9 @@ char *igris_f32toa(float32_t f, char *buf, int8_t precision)
 
         // restore end pos
         ptr = p1;
+
+        while (intZeros--)
+            *ptr++ = '0';
     }
 
     // decimal part
